@@ -468,6 +468,38 @@ def judge_decorated(ctx, spec, nspec, path, tree, dtree, style):
                     'decorated': tb[:300], 'outcome': kb}, 'decorated')
 
 
+def doc_order(path):
+    return tuple((st[1], 0 if st[0] == 'k' else 1) for st in path)
+
+
+def judge_aliased_any(ctx, spec, nspec, path, rng):
+    """The node at an Any position is the same anchored node as a scalar
+    (or collection) elsewhere in the document, where the model may read it as
+    an enum, a string-like class or a Path: what is built at the Any position
+    is plain data all the same, and what is built elsewhere is what the
+    expanded document gives (the ordinary judgement, on the aliased text)."""
+    cands = []
+    for p, sub in D.paths(nspec):
+        if not p or p[-1][0] == 'k' or p[:len(path)] == tuple(path):
+            continue
+        if tuple(path)[:len(p)] == p:
+            continue        # an ancestor of the Any position
+        if sub[0] == 's' and sub[1] == S.TAG_STR or (
+                sub[0] in ('seq', 'map') and len(repr(sub)) < 200):
+            cands.append((p, sub))
+    rng.shuffle(cands)
+    for p, sub in cands[:2]:
+        first, second = sorted([tuple(path), p], key=doc_order)
+        a = D.set_at(nspec, first, ['anchor', 'sh', copy.deepcopy(sub)])
+        a = D.set_at(a, second, ['alias', 'sh'])
+        try:
+            text = D.render(a, rng.choice(['block', 'flow']))
+        except (ValueError, RecursionError):
+            continue
+        ctx.count('any_position_aliased_with_typed_position')
+        judge(ctx, spec, text, 'aliased-any', 0)
+
+
 def has_any_position(spec):
     def walk(t):
         if isinstance(t, str):
@@ -570,6 +602,12 @@ def shard(ctx):
                     continue
                 judge_decorated(ctx, spec, nspec_ns, p, tree, dtree,
                                 rng.choice(['block', 'flow']))
+            for p in apaths[:2]:
+                try:
+                    D.get_at(nspec_ns, p)
+                except (IndexError, TypeError):
+                    continue
+                judge_aliased_any(ctx, spec, nspec_ns, p, rng)
     # whole documents typed Any
     spec0 = {'classes': [
         {'name': 'Victim', 'kind': 'plain',
